@@ -72,7 +72,11 @@ func (f *Mapcon) Call(s *slip.Scope, args slip.List, depth int) slip.Object {
 			l2 := args[i].(slip.List)
 			ca[i-1] = l2[n:]
 		}
-		rl, _ := slip.PrimaryValue(caller.Call(s, ca, d2)).(slip.List)
+		r := slip.PrimaryValue(caller.Call(s, ca, d2))
+		if slip.IsExit(r) {
+			return r
+		}
+		rl, _ := r.(slip.List)
 		rlist = append(rlist, rl...)
 	}
 	return rlist
